@@ -38,7 +38,7 @@ OBLIGATIONS = {
         "c18_tu64_value", "c18_tu64_reject", "c18_bigsize_roundtrip", "c18_pinned_counterexample",
     ],
     "C12": [
-        "c12_sound", "c12_exact_partial", "c12_mul_overflow_false", "c12_total", "c12_encode",
+        "c12_sound", "c12_exact_partial", "c12_mono_total", "c12_anti_policy", "c12_mul_overflow_false", "c12_total", "c12_encode",
         "c12_pinned_panics", "c12_pinned_wraps_true", "c12_mul_overflow_counterexample",
         "c12_failure_is_policy", "c12_first_htlc_rejected", "c12_first_htlc_answer", "c12_failure_bytes",
     ],
